@@ -511,6 +511,11 @@ def F51(fil):
     return pos != 0 or not np.array_equal(first, want), f"fresh FileReader: stream position {pos}, first cread equals the first sample: {bool(np.array_equal(first, want))}"
 
 
+def F52(fil):
+    out = outcome(lambda: fil.subband(0.0, 3, outfile_name="f52.sub", quiet=True))
+    return out[0] != "exc" or "ValueError" not in str(out[1]), f"subband(nsub=3) on a {fil.header.nchans}-channel file -> {str(out)[:120]}"
+
+
 ALL = {k: v for k, v in globals().items() if k.startswith("F") and k[1:].isdigit()}
 
 
